@@ -1,5 +1,6 @@
 import RTA.Lemmas.RosNaive
 import RTA.Lemmas.ChainSound
+import RTA.Lemmas.PrunedLe
 /-! # C07 — ROS 2 bounds equal exhaustive evaluation of their defining equations
 
 Model: `RTA/Model/Ros.lean`; naive evaluation: `RTA/Spec/NaiveRos.lean` — every offset up to
@@ -77,6 +78,18 @@ theorem chain_partial (s : Supply) (hs : s.WF) (a : Arr) (C P : Nat) (others : R
     exact ⟨hwf, hwfo, trivial⟩
   · simp only [RB.Exact, RB.ExactList]
     exact ⟨⟨hex, Cost.scalar_strictPos P hP⟩, hexo, trivial⟩
+
+/-- finding K2, the direction that always holds: the pruned timer / polling-point analyses never
+return MORE than the all-offset evaluation (and an error of theirs is an error of it) -/
+theorem timer_le_all_offsets (s : Supply) (hs : s.WF) (a : Arr) (C : Nat) (interf : RB)
+    (hwf : a.WF) (hex : a.Exact) (hC : 1 ≤ C) (hpos : 0 < a.N 1)
+    (hwfi : interf.ArrWF) (hexi : interf.Exact) (B limit : Nat) (hl : 1 ≤ limit) :
+    Res.leD (rosTimer s (.rbf a (.scalar C)) interf B limit)
+      (naiveTimer s (.rbf a (.scalar C)) interf B limit) ∧
+    Res.leD (rosPollingPoint s (.rbf a (.scalar C)) interf limit)
+      (naivePollingPoint s (.rbf a (.scalar C)) interf limit) :=
+  ⟨RTA.timer_le_all_offsets s hs a C interf hwf hex hC hpos hwfi hexi B limit hl,
+   RTA.pollingPoint_le_all_offsets s hs a C interf hwf hex hC hpos hwfi hexi limit hl⟩
 
 /-- the full claim for the timer analysis (all-offset evaluation) -/
 def TimerEqualsAllOffsets : Prop :=
